@@ -31,7 +31,8 @@ fn guard<T>(rep: &mut Report, key: &str, input: &str, f: impl FnOnce() -> T) -> 
     match catch_unwind(AssertUnwindSafe(f)) {
         Ok(v) => Some(v),
         Err(_) => {
-            rep.fail(key, input.to_string(), "the real code panicked".into());
+            let at = crate::report::LAST_PANIC.lock().map(|g| g.clone()).unwrap_or_default();
+            rep.fail(key, input.to_string(), format!("the real code panicked: {}", at));
             None
         }
     }
